@@ -329,13 +329,13 @@ func cmdCheck(args []string) int {
 		fmt.Fprintln(os.Stderr, "engine error: zero obligations generated for", id)
 		return 2
 	}
-	timeout := 30
+	timeout := 45
 	if *tier == "thorough" {
 		timeout = 120
 	}
 	timeout = envInt("GOBLVC_TIMEOUT", timeout)
 	sv := NewSolver(filepath.Join(*verif, ".cache"), timeout, 16)
-	sv.noCache = *nocache
+	sv.noCache = *nocache || *writeBaseline
 	sv.seed = seed
 	if *tier == "thorough" {
 		sv.all = true
@@ -385,6 +385,18 @@ func cmdCheck(args []string) int {
 		fmt.Fprintln(os.Stderr, "engine error:", err)
 		return 2
 	}
+	sweepFuncs := map[string]bool{}
+	for _, g := range gens {
+		if g.sweep {
+			sweepFuncs[g.fname] = true
+		}
+	}
+	sweepObl := map[string]bool{}
+	for _, o := range obls {
+		if o.Gen.sweep {
+			sweepObl[o.Name] = true
+		}
+	}
 	var reports []oblReport
 	discharged := 0
 	required := 0
@@ -410,8 +422,9 @@ func cmdCheck(args []string) int {
 				idx = append(idx, i)
 			}
 		}
-		if len(again) > 0 && len(again) <= 3 {
-			sv2 := NewSolver(filepath.Join(*verif, ".cache"), timeout*2, 16)
+		if len(again) > 0 && len(again) <= 8 {
+			sv2 := NewSolver(filepath.Join(*verif, ".cache"), timeout*3, 16)
+			sv2.noCap = true
 			rr := runObligations(sv2, again)
 			sv2.Close()
 			for k, i := range idx {
@@ -565,6 +578,11 @@ func cmdCheck(args []string) int {
 			if !ok {
 				bad[baseName(r.Name)] = true
 			}
+			// safety-sweep obligations enter the baseline only if they discharge well under the
+			// limit on an uncached run: slow queries are the unstable ones and must not become alarms
+			if sweepObl[r.Name] && (r.Seconds > 1.5 || r.Cached) {
+				bad[baseName(r.Name)] = true
+			}
 			nm[baseName(r.Name)] = true
 		}
 		for n := range nm {
@@ -577,7 +595,7 @@ func cmdCheck(args []string) int {
 		var pf []string
 		for _, n := range funcOrder {
 			fr := funcReports[n]
-			if fr.Unsupported == "" && fr.Obligations > 0 && fr.Obligations == fr.Discharged {
+			if fr.Unsupported == "" && fr.Obligations > 0 && fr.Obligations == fr.Discharged && !sweepFuncs[n] {
 				pf = append(pf, n)
 			}
 		}
@@ -805,9 +823,17 @@ func (e *Engine) sweep(ps *PropertySpec, done map[string]*FuncGen) ([]*FuncGen, 
 						}
 					}
 					g.obls = keep
-				} else if !infer {
-					g.applyAbstractions()
-					g.applySplits()
+				} else {
+					// a function with a contract of its own: its functional obligations belong to
+					// the properties that list it; the sweep keeps its safety obligations only
+					var keep []*Obligation
+					for _, o := range g.obls {
+						if strings.HasPrefix(o.Kind, "safe.") {
+							keep = append(keep, o)
+						}
+					}
+					g.obls = keep
+					g.sweep = true
 				}
 				out[i] = g
 			}()
